@@ -159,6 +159,24 @@ func c18accessors(list []*network.ServerIdentity) string {
 	return ""
 }
 
+// c18accDump: what the four accessors answer for every name, per identity
+func c18accDump(list []*network.ServerIdentity, names []string) string {
+	var parts []string
+	for _, si := range list {
+		var l []string
+		for _, nme := range names {
+			pr := "none"
+			if p := si.ServicePrivate(nme); p != nil {
+				pr = h.Hex(c18mb(p))
+			}
+			b := map[bool]string{true: "1", false: "0"}
+			l = append(l, fmt.Sprintf("%s:%s:%s:%s", h.Hex(c18mb(si.ServicePublic(nme))), pr, b[si.HasServicePublic(nme)], b[si.HasServiceKeyPair(nme)]))
+		}
+		parts = append(parts, strings.Join(l, "/"))
+	}
+	return "ok " + strings.Join(parts, ";")
+}
+
 // c18devFull: /dev/full exists and behaves (a write to it fails)
 var c18devFullOnce sync.Once
 var c18devFullOK bool
@@ -705,6 +723,82 @@ func c18exec(c *h.Ctx, cs *h.Case) {
 					cs.Fail("read-result-changed", fmt.Sprintf("after the uses Roster.ID is %s, GetID() %s, the keys in slice order give %s", g.Roster.ID, id2, c18idOfPre(pre)))
 				}
 			}()
+		case len(tk) == 4 && tk[1] == "acc":
+			// the per-service keys of the identities that were read, asked for by name through ServicePublic /
+			// ServicePrivate / HasServicePublic / HasServiceKeyPair (network/struct.go): compared with the model's
+			// look-up; the oracle service-key-accessor (c18accessors) runs on every read anyway
+			var names []string
+			okN := true
+			for _, hxn := range strings.Split(tk[3], ",") {
+				nme, ok := c20unhex(hxn)
+				okN = okN && ok
+				names = append(names, nme)
+			}
+			if !okN {
+				break
+			}
+			var list []*network.ServerIdentity
+			switch tk[2] {
+			case "g":
+				if !haveText {
+					break
+				}
+				file := newFile(".group.toml")
+				c18ensure(file, text)
+				first, g, _ := c18readGroup(file)
+				os.Remove(file)
+				obs = first
+				if g != nil && g.Roster != nil {
+					list = g.Roster.List
+				} else if strings.HasPrefix(first, "ok") {
+					list = []*network.ServerIdentity{}
+				}
+			case "p":
+				if lastHC == nil {
+					break
+				}
+				func() {
+					defer func() {
+						if r := recover(); r != nil {
+							obs = "panic"
+						}
+					}()
+					si, err := lastHC.GetServerIdentity()
+					if err != nil {
+						obs = "err"
+						return
+					}
+					list = []*network.ServerIdentity{si}
+				}()
+			}
+			if list != nil {
+				obs = c18accDump(list, names)
+				outs = append(outs, "acc:ok")
+				// the oracle's own look-up: the entry with exactly that name, else the server's own keys
+				for n, si := range list {
+					for _, nme := range names {
+						var entry *network.ServiceIdentity
+						for i := range si.ServiceIdentities {
+							if si.ServiceIdentities[i].Name == nme && entry == nil {
+								entry = &si.ServiceIdentities[i]
+							}
+						}
+						wantPub, wantPriv := si.Public, si.GetPrivate()
+						if entry != nil {
+							wantPub, wantPriv = entry.Public, entry.GetPrivate()
+						}
+						gotPriv := si.ServicePrivate(nme)
+						switch {
+						case !si.ServicePublic(nme).Equal(wantPub):
+							cs.Fail("service-key-accessor", fmt.Sprintf("server %d: ServicePublic(%q) = %x, the entry of exactly that name (else the server itself) has %x", n, nme, c18mb(si.ServicePublic(nme)), c18mb(wantPub)))
+						case (gotPriv == nil) != (wantPriv == nil) || (gotPriv != nil && !gotPriv.Equal(wantPriv)):
+							cs.Fail("service-key-accessor", fmt.Sprintf("server %d: ServicePrivate(%q) is not the private key of the entry of exactly that name (else the server's own)", n, nme))
+						case si.HasServicePublic(nme) != (entry != nil) || si.HasServiceKeyPair(nme) != (entry != nil && entry.GetPrivate() != nil):
+							cs.Fail("service-key-accessor", fmt.Sprintf("server %d: HasServicePublic(%q) = %v, HasServiceKeyPair = %v; an entry of exactly that name exists: %v", n, nme, si.HasServicePublic(nme), si.HasServiceKeyPair(nme), entry != nil))
+						}
+					}
+				}
+			}
 		case len(tk) == 4 && tk[1] == "writeread":
 			su, _ := c20unhex(tk[2])
 			n, _ := strconv.Atoi(tk[3])
@@ -1704,6 +1798,27 @@ func c18generate(c *h.Ctx, yield func(*h.Case)) {
 	n := 0
 	textLevel := false // the next cases are text-level ones
 	usesNext := false // the next group case with a write suite gets a `uses` op for sure
+	// names asked for through the accessors: registered services (with and without entry in the file), the same
+	// in another letter case, a prefix, an extension, a name nobody has
+	accNames := func() string {
+		var l []string
+		for i := 0; i < 2+g.r.Intn(4); i++ {
+			nme := "c18" + c18services[g.r.Intn(len(c18services))][0]
+			switch g.r.Intn(6) {
+			case 0:
+				nme = strings.ToUpper(nme)
+			case 1:
+				nme = strings.ToLower(nme)
+			case 2:
+				nme = nme[:len(nme)-1]
+			case 3:
+				nme += "x"
+			}
+			l = append(l, c18hex(nme))
+		}
+		l = append(l, c18hex("c18 nobody"))
+		return strings.Join(l, ",")
+	}
 	emitGroup := func(class, text string, reads int, child bool, writeSuite string) {
 		ops, ok := c18groupOps(text)
 		if !ok {
@@ -1728,6 +1843,10 @@ func c18generate(c *h.Ctx, yield func(*h.Case)) {
 		}
 		cs.Ops = append(cs.Ops, ops...)
 		cs.Ops = append(cs.Ops, fmt.Sprintf("c18 readgroup %d %s", reads, c18b(child)))
+		if g.r.Intn(6) == 0 || strings.HasPrefix(class, "corpus") {
+			cs.Ops = append(cs.Ops, "c18 acc g "+accNames())
+			c.Count("op=acc-group")
+		}
 		if writeSuite != "" {
 			if usesNext || g.r.Intn(4) == 0 {
 				// the consumer's side: rosters from parts of the list that was read, extended, rotated - then the
@@ -1763,6 +1882,10 @@ func c18generate(c *h.Ctx, yield func(*h.Case)) {
 			return
 		}
 		cs.Ops = append(cs.Ops, "c18 text "+c18hex(text), op)
+		if g.r.Intn(4) == 0 || strings.HasPrefix(class, "corpus") {
+			cs.Ops = append(cs.Ops, "c18 acc p "+accNames())
+			c.Count("op=acc-private")
+		}
 		if parseNext {
 			cs.Ops = append(cs.Ops, "c18 parsecoth")
 			c.Count("op=parsecoth")
